@@ -73,8 +73,28 @@ Definition call_of_vec (v : vec) : option Z := call_of_list (vlist v).
 
 (* ------------------------------------------------------------------ reads and fragments *)
 Definition call := (Z * Z)%type.                         (* (query base, phred quality) *)
+Definition acall := (Z * Z * Z * Z * Z)%type.          (* (refpos, query base, quality, query position, reference base) *)
 Record read := { r_contig : Z; r_start : Z; r_end : Z; r_rev : bool; r_md : bool;
-                 r_calls : list (Z * Z * Z) }.           (* (refpos, base, quality) *)
+                 r_calls : list acall; r_qlen : Z }.     (* r_qlen = read.infer_query_length() *)
+
+(* the keyword arguments of Molecule.get_consensus that reach get_consensus_dictionaries / read_to_consensus_dict
+   (None = not given).  The theorems quantify over every value of this record. *)
+Record opts := { o_ds : bool;                 (* dove_safe *)
+                 o_refbase : option Z;        (* only_include_refbase (character code) *)
+                 o_minq : option Z;           (* min_phred_score *)
+                 o_sf1 : option Z; o_sl1 : option Z;     (* skip_first_n_cycles_R1, skip_last_n_cycles_R1 *)
+                 o_sf2 : option Z; o_sl2 : option Z;     (* skip_first_n_cycles_R2, skip_last_n_cycles_R2 *)
+                 o_d1 : Z; o_d2 : Z }.        (* dove_R1_distance, dove_R2_distance *)
+Definition dflt (d : bool) : opts :=
+  {| o_ds := d; o_refbase := None; o_minq := None; o_sf1 := None; o_sl1 := None; o_sf2 := None; o_sl2 := None;
+     o_d1 := 0; o_d2 := 0 |}.
+(* what read_to_consensus_dict receives for one mate *)
+Record rfilter := { f_refbase : option Z; f_minq : option Z; f_sf : option Z; f_sl : option Z }.
+Definition flt1 (o : opts) : rfilter :=
+  {| f_refbase := o_refbase o; f_minq := o_minq o; f_sf := o_sf1 o; f_sl := o_sl1 o |}.
+(* get_consensus_dictionaries passes skip_first_n_cycles=skip_last_n_cycles_R2 for R2 (sic): skip_first_n_cycles_R2 is unused *)
+Definition flt2 (o : opts) : rfilter :=
+  {| f_refbase := o_refbase o; f_minq := o_minq o; f_sf := o_sl2 o; f_sl := o_sl2 o |}.
 Definition frag := list (option read).                   (* Fragment.reads *)
 
 Inductive Res (A : Type) : Type := Ok (a : A) | ValueError | IndexError.
@@ -102,12 +122,12 @@ Definition pick_best (cs : list (option call)) : call := pb_result (fold_left pb
 
 (* ------------------------------------------------------------------ sequtils.get_consensus_dictionaries *)
 (* the dove-safe window (start, end), both inclusive; None = unrestricted *)
-Definition window (ds : bool) (r1 r2 : option read) : Res (option (Z * Z)) :=
-  if ds then
+Definition window (o : opts) (r1 r2 : option read) : Res (option (Z * Z)) :=
+  if o_ds o then
     match r1, r2 with
     | Some a, Some b =>
-        if r_rev a && negb (r_rev b) then Ok (Some (r_start b + 0, r_end a - 0 - 1))
-        else if negb (r_rev a) && r_rev b then Ok (Some (r_start a + 0, r_end b - 0 - 1))
+        if r_rev a && negb (r_rev b) then Ok (Some (r_start b + o_d2 o, r_end a - o_d1 o - 1))
+        else if negb (r_rev a) && r_rev b then Ok (Some (r_start a + o_d1 o, r_end b - o_d2 o - 1))
         else ValueError                      (* 'This method only works for inwards facing reads' *)
     | _, _ => ValueError                     (* 'Its not possible to determine a safe region ...' *)
     end
@@ -118,15 +138,26 @@ Definition in_win (w : option (Z * Z)) (p : Z) : bool :=
 
 (* read_to_consensus_dict: dict comprehension over the aligned pairs (a repeated key keeps the last value);
    get_aligned_pairs(with_seq=True) raises ValueError when the read has no MD tag *)
-Definition read_items (w : option (Z * Z)) (r : read) : list (key * call) :=
-  map (fun c => let '(p, b, q) := c in ((r_contig r, p), (b, q)))
-      (filter (fun c => let '(p, _, _) := c in in_win w p) (r_calls r)).
+Definition upper (c : Z) : Z := if (97 <=? c) && (c <=? 122) then c - 32 else c.       (* str.upper on one letter *)
+(* the `if` of the dict comprehension *)
+Definition keep_call (w : option (Z * Z)) (fl : rfilter) (r : read) (c : acall) : bool :=
+  let '(p, _, q, qp, rb) := c in
+  in_win w p
+  && match f_minq fl with None => true | Some m => q >=? m end
+  && match f_sl fl with None => true
+     | Some n => (r_rev r && (qp >? n)) || (negb (r_rev r) && (qp <? r_qlen r - n)) end
+  && match f_sf fl with None => true
+     | Some n => (negb (r_rev r) && (qp >? n)) || (r_rev r && (qp <? r_qlen r - n)) end
+  && match f_refbase fl with None => true | Some x => upper rb =? x end.
+Definition read_items (w : option (Z * Z)) (fl : rfilter) (r : read) : list (key * call) :=
+  map (fun c : acall => let '(p, b, q, _, _) := c in ((r_contig r, p), (b, q)))
+      (filter (keep_call w fl r) (r_calls r)).
 Definition dict_of {V} (items : list (key * V)) : dict V :=
   fold_left (fun d kv => dset (fst kv) (snd kv) d) items [].
-Definition read_dict (w : option (Z * Z)) (r : option read) : Res (dict call) :=
+Definition read_dict (w : option (Z * Z)) (fl : rfilter) (r : option read) : Res (dict call) :=
   match r with
   | None => Ok []
-  | Some r => if r_md r then Ok (dict_of (read_items w r)) else ValueError
+  | Some r => if r_md r then Ok (dict_of (read_items w fl r)) else ValueError
   end.
 
 (* set(r1.keys()).union(set(r2.keys())) as a duplicate-free list (iteration order of the python set is not
@@ -135,14 +166,14 @@ Definition union_keys (d1 d2 : dict call) : list key :=
   dkeys d1 ++ filter (fun k => negb (dmem k d1)) (dkeys d2).
 
 (* ------------------------------------------------------------------ Fragment.get_consensus *)
-Definition frag_consensus (ds : bool) (f : frag) : Res (dict call) :=
+Definition frag_consensus (ds : opts) (f : frag) : Res (dict call) :=
   match nth_error f 0, nth_error f 1 with          (* self.R1 = reads[0], self.R2 = reads[1] *)
   | Some r1, Some r2 =>
       match window ds r1 r2 with
       | Ok w =>
-          match read_dict w r1 with
+          match read_dict w (flt1 ds) r1 with
           | Ok d1 =>
-              match read_dict w r2 with
+              match read_dict w (flt2 ds) r2 with
               | Ok d2 => Ok (map (fun k => (k, pick_best [dget k d1; dget k d2])) (union_keys d1 d2))
               | ValueError => ValueError | IndexError => IndexError
               end
@@ -159,8 +190,8 @@ Definition has_R2 (f : frag) : bool := match nth_error f 1 with Some (Some _) =>
 
 (* the skip test.  /repo HEAD:   dove_safe and not has_R2 or not has_R1   = (ds and not R2) or (not R1)   [D16]
    repaired (fixes/C13-D16.patch): dove_safe and (not has_R2 or not has_R1) *)
-Definition skip_head (ds : bool) (f : frag) : bool := (ds && negb (has_R2 f)) || negb (has_R1 f).
-Definition skip_fixed (ds : bool) (f : frag) : bool := ds && (negb (has_R2 f) || negb (has_R1 f)).
+Definition skip_head (ds : opts) (f : frag) : bool := (o_ds ds && negb (has_R2 f)) || negb (has_R1 f).
+Definition skip_fixed (ds : opts) (f : frag) : bool := o_ds ds && (negb (has_R2 f) || negb (has_R1 f)).
 
 Definition table := dict vec.                               (* consensii: defaultdict(np.zeros(5)) *)
 Definition tget (k : key) (t : table) : vec := match dget k t with Some v => v | None => zeros end.
@@ -181,8 +212,8 @@ Fixpoint vote_items (items : list (key * call)) (t : table) : table :=
   end.
 
 Section Mol.
-  Variable skip : bool -> frag -> bool.
-  Fixpoint mol_table (ds : bool) (fs : list frag) (t : table) : Res table :=
+  Variable skip : opts -> frag -> bool.
+  Fixpoint mol_table (ds : opts) (fs : list frag) (t : table) : Res table :=
     match fs with
     | [] => Ok t
     | f :: rest =>
@@ -196,7 +227,7 @@ Section Mol.
   (* argmax + uniqueness mask, per location (the sort of the locations only fixes the dict's iteration order) *)
   Definition finish (t : table) : dict Z :=
     flat_map (fun kv => match call_of_vec (snd kv) with Some b => [(fst kv, b)] | None => [] end) t.
-  Definition mol_consensus (ds : bool) (fs : list frag) : Res (dict Z) :=
+  Definition mol_consensus (ds : opts) (fs : list frag) : Res (dict Z) :=
     match mol_table ds fs [] with
     | Ok t => Ok (finish t)
     | ValueError => ValueError | IndexError => IndexError
@@ -205,13 +236,13 @@ End Mol.
 
 (* ------------------------------------------------------------------ declarative vote (the specification side) *)
 (* the one call a fragment contributes at key k (None = no vote) *)
-Definition frag_call (skip : bool -> frag -> bool) (ds : bool) (f : frag) (k : key) : option Z :=
+Definition frag_call (skip : opts -> frag -> bool) (ds : opts) (f : frag) (k : key) : option Z :=
   if skip ds f then None else
   match nth_error f 0, nth_error f 1 with
   | Some r1, Some r2 =>
       match window ds r1 r2 with
       | Ok w =>
-          match read_dict w r1, read_dict w r2 with
+          match read_dict w (flt1 ds) r1, read_dict w (flt2 ds) r2 with
           | Ok d1, Ok d2 =>
               match dget k d1, dget k d2 with
               | None, None => None
@@ -225,30 +256,30 @@ Definition frag_call (skip : bool -> frag -> bool) (ds : bool) (f : frag) (k : k
   end.
 
 Definition zsum (l : list Z) : Z := fold_right Z.add 0 l.
-Definition votes (skip : bool -> frag -> bool) (ds : bool) (fs : list frag) (k : key) (b : Z) : Z :=
+Definition votes (skip : opts -> frag -> bool) (ds : opts) (fs : list frag) (k : key) (b : Z) : Z :=
   zsum (map (fun f => if opt_is (frag_call skip ds f k) b then 1 else 0) fs).
 
 Definition acgt : list Z := [bA; bC; bG; bT].
 (* the strict-majority base at k, computed from the declarative votes *)
-Definition majority (skip : bool -> frag -> bool) (ds : bool) (fs : list frag) (k : key) : option Z :=
+Definition majority (skip : opts -> frag -> bool) (ds : opts) (fs : list frag) (k : key) : option Z :=
   find (fun b => forallb (fun b' => (b' =? b) || (votes skip ds fs k b' <? votes skip ds fs k b)) acgt) acgt.
 
 (* preconditions of the theorems *)
 Definition read_bases_ok (r : read) : bool :=
-  forallb (fun c => let '(_, b, _) := c in match base_index b with Some _ => true | None => false end) (r_calls r).
+  forallb (fun c : acall => let '(_, b, _, _, _) := c in match base_index b with Some _ => true | None => false end) (r_calls r).
 Definition frag_bases_ok (f : frag) : bool :=
   forallb (fun o => match o with Some r => read_bases_ok r | None => true end) f.
 Definition two_slots (f : frag) : bool := Nat.eqb (length f) 2.
 Definition pre (fs : list frag) : bool := forallb (fun f => frag_bases_ok f && two_slots f) fs.
 
 Definition frag_keys (f : frag) : list key :=
-  flat_map (fun o => match o with Some r => map (fun c => let '(p, _, _) := c in (r_contig r, p)) (r_calls r)
+  flat_map (fun o => match o with Some r => map (fun c : acall => let '(p, _, _, _, _) := c in (r_contig r, p)) (r_calls r)
                               | None => [] end) f.
 Definition opt_eqb (a b : option Z) : bool :=
   match a, b with Some x, Some y => x =? y | None, None => true | _, _ => false end.
 (* boolean specification: the dictionary [out] holds exactly the strict-majority base at every key
    covered by any read (and nothing at keys it mentions beyond those) *)
-Definition specb (skip : bool -> frag -> bool) (ds : bool) (fs : list frag) (out : dict Z) : bool :=
+Definition specb (skip : opts -> frag -> bool) (ds : opts) (fs : list frag) (out : dict Z) : bool :=
   forallb (fun k => opt_eqb (dget k out) (majority skip ds fs k)) (flat_map frag_keys fs ++ dkeys out).
 
 (* ------------------------------------------------------------------ histories: the molecule as a state machine *)
@@ -262,7 +293,7 @@ Inductive op : Type :=
 | OpAdd (accepted : bool) (f : frag)
 | OpRaw (f : frag)
 | OpMol (fs : list frag)
-| OpGet (ds probs : bool).
+| OpGet (ds : opts) (probs : bool).
 Definition mstate := list frag.
 Definition op_frags (o : op) : list frag :=
   match o with
@@ -273,28 +304,37 @@ Definition held (ops : list op) : list frag := flat_map op_frags ops.     (* eve
 Inductive answer : Type :=
 | AnsCons (r : Res (dict Z))
 | AnsProbs (r : Res (dict Z)) (t : Res table).
-Definition answer_of (skip : bool -> frag -> bool) (ds probs : bool) (st : mstate) : answer :=
+Definition answer_of (skip : opts -> frag -> bool) (ds : opts) (probs : bool) (st : mstate) : answer :=
   if probs then AnsProbs (mol_consensus skip ds st) (mol_table skip ds st [])
   else AnsCons (mol_consensus skip ds st).
-Definition step (skip : bool -> frag -> bool) (st : mstate) (o : op) : mstate * list answer :=
+Definition step (skip : opts -> frag -> bool) (st : mstate) (o : op) : mstate * list answer :=
   match o with
   | OpGet ds probs => (st, [answer_of skip ds probs st])
   | _ => (st ++ op_frags o, [])
   end.
-Fixpoint run_ops (skip : bool -> frag -> bool) (st : mstate) (ops : list op) : list answer :=
+Fixpoint run_ops (skip : opts -> frag -> bool) (st : mstate) (ops : list op) : list answer :=
   match ops with
   | [] => []
   | o :: rest => snd (step skip st o) ++ run_ops skip (fst (step skip st o)) rest
   end.
 
 (* ------------------------------------------------------------------ I/O glue *)
-Definition dec_call (v : Val) : Z * Z * Z := (getZ (nthV 0 v), getZ (nthV 1 v), getZ (nthV 2 v)).
+Definition dec_call (v : Val) : acall :=
+  (getZ (nthV 0 v), getZ (nthV 1 v), getZ (nthV 2 v), getZ (nthV 3 v), getZ (nthV 4 v)).
+(* options: a bare integer = dove_safe with every other keyword at its default; else the 9-field record *)
+Definition dec_opts (v : Val) : opts :=
+  match v with
+  | VZ z => dflt (negb (z =? 0))
+  | VL _ => {| o_ds := getB (nthV 0 v); o_refbase := getOptZ (nthV 1 v); o_minq := getOptZ (nthV 2 v);
+               o_sf1 := getOptZ (nthV 3 v); o_sl1 := getOptZ (nthV 4 v); o_sf2 := getOptZ (nthV 5 v);
+               o_sl2 := getOptZ (nthV 6 v); o_d1 := getZ (nthV 7 v); o_d2 := getZ (nthV 8 v) |}
+  end.
 Definition dec_read (v : Val) : option read :=
   match getL v with
   | [] => None
   | _ => Some {| r_contig := getZ (nthV 0 v); r_start := getZ (nthV 1 v); r_end := getZ (nthV 2 v);
                  r_rev := getB (nthV 3 v); r_md := getB (nthV 4 v);
-                 r_calls := map dec_call (getL (nthV 5 v)) |}
+                 r_calls := map dec_call (getL (nthV 5 v)); r_qlen := getZ (nthV 6 v) |}
   end.
 Definition dec_frag (v : Val) : frag := map dec_read (getL v).
 Definition dec_frags (v : Val) : list frag := map dec_frag (getL v).
@@ -315,7 +355,7 @@ Definition dec_op (v : Val) : op :=
   if t =? 0 then OpAdd (getB (nthV 1 v)) (dec_frag (nthV 2 v))
   else if t =? 1 then OpRaw (dec_frag (nthV 1 v))
   else if t =? 2 then OpMol (dec_frags (nthV 1 v))
-  else OpGet (getB (nthV 1 v)) (getB (nthV 2 v)).
+  else OpGet (dec_opts (nthV 1 v)) (getB (nthV 2 v)).
 Definition enc_answer (a : answer) : Val :=
   match a with
   | AnsCons r => VL [enc_res enc_out r]
@@ -328,16 +368,16 @@ Definition enc_answer (a : answer) : Val :=
    7 / 8: a history (list of operations) through the repaired / HEAD molecule state machine, one answer per OpGet *)
 Definition run_C13 (mode : Z) (v : Val) : Val :=
   match mode with
-  | 0 => enc_res enc_out (mol_consensus skip_fixed (getB (nthV 0 v)) (dec_frags (nthV 1 v)))
+  | 0 => enc_res enc_out (mol_consensus skip_fixed (dec_opts (nthV 0 v)) (dec_frags (nthV 1 v)))
   | 1 => ofB (pre (dec_frags (nthV 1 v)))
   | 2 => let i := nthV 0 v in
-         ofB (specb skip_fixed (getB (nthV 0 i)) (dec_frags (nthV 1 i)) (dec_out (nthV 1 v)))
-  | 3 => enc_res enc_out (mol_consensus skip_head (getB (nthV 0 v)) (dec_frags (nthV 1 v)))
-  | 4 => enc_res enc_table (mol_table skip_fixed (getB (nthV 0 v)) (dec_frags (nthV 1 v)) [])
+         ofB (specb skip_fixed (dec_opts (nthV 0 i)) (dec_frags (nthV 1 i)) (dec_out (nthV 1 v)))
+  | 3 => enc_res enc_out (mol_consensus skip_head (dec_opts (nthV 0 v)) (dec_frags (nthV 1 v)))
+  | 4 => enc_res enc_table (mol_table skip_fixed (dec_opts (nthV 0 v)) (dec_frags (nthV 1 v)) [])
   | 5 => let r := pick_best (map (fun c => match getL c with [] => None | _ => Some (getZ (nthV 0 c), getZ (nthV 1 c)) end)
                                  (getL v)) in VL [VZ (fst r); VZ (snd r)]
   | 6 => enc_res (fun d : dict call => VL (map (fun e => VL [VZ (fst (fst e)); VZ (snd (fst e)); VZ (fst (snd e)); VZ (snd (snd e))]) d))
-                 (frag_consensus (getB (nthV 0 v)) (dec_frag (nthV 1 v)))
+                 (frag_consensus (dec_opts (nthV 0 v)) (dec_frag (nthV 1 v)))
   | 7 => VL (map enc_answer (run_ops skip_fixed [] (map dec_op (getL v))))
   | 8 => VL (map enc_answer (run_ops skip_head [] (map dec_op (getL v))))
   | _ => bad
